@@ -383,7 +383,14 @@ def op_c20_live(job, drv):
                 m = LOGRE.match(line)
                 if m:
                     recs.append([m.group(4), m.group(1), m.group(2)])
-            out["clients"].append({"name": r["name"], "source": r.get("source", "127.0.0.1"), "received": got, "client_error": err, "settled": settled,
+            # what the server itself says it received on this connection: its access-log line
+            served_by = None
+            for line in list(drv._logsink):
+                m = re.match(r"^(\S+) \[(\w+)/\w+\]: ", line)
+                if m and m.group(1) == r.get("source", "127.0.0.1") and m.group(2) != "None":
+                    served_by = m.group(2)
+                    break
+            out["clients"].append({"name": r["name"], "source": r.get("source", "127.0.0.1"), "served_by": served_by, "received": got, "client_error": err, "settled": settled,
                                    "records": recs, "escaped": list(escaped), "fd_nogc": nogc, "fd_left": left,
                                    "children": kids,
                                    "log": list(drv._logsink)[-4:]})
